@@ -41,4 +41,20 @@ CLAIMS["C13"] = {
     "design_ref": "DESIGN.md section 6 C13",
 }
 
+CLAIMS["C08"] = {
+    "text": "Translation + machine-checked proof (Lean 4). tools/extract_msg.py translates, on every run, each of the 63 "
+            "serialize_message bodies into its set of wire paths and each deserialize_message body into a decision tree; Lean then proves "
+            "(by kernel evaluation over the generated tables) that for every kind the two describe the same set of layouts (ser_de_agree), "
+            "that the kind table is 0..62 without gaps and matches the dispatcher (kind_table, tables_ok), and — generically for any such "
+            "tree — the frame round trip with correct length prefix and identical payload (msg_roundtrip), strict acceptance (msg_strict: "
+            "length >= 5, prefix = length, known kind, fields follow the layout, nothing left over) and that whatever is accepted "
+            "re-serialises to a frame that parses to the same message (msg_reserialize). Tie for the frame header logic and the varint/uuid "
+            "readers: differential runs of Message::deserialize_message/serialize_message against the compiled model.",
+    "note": "Trusted: Lean kernel (+propext, Classical.choice, Quot.sound), the translator (a mini-parser for the straight-line Rust subset used "
+            "by the message bodies; anything it does not understand is a hard error), the differential harness. No-panic of the Rust parser "
+            "is observed (catch_unwind), not proved.",
+    "design_ref": "DESIGN.md section 6 C08",
+    "technique": "source-to-Lean translation of the 63 message layouts + Lean 4 proofs + differential correspondence",
+}
+
 NOT_APPLICABLE = {}
